@@ -119,3 +119,22 @@ def ref_canon(output):
     except RecursionError:
         return None, None, None
     return r, refjs.canon(r.tree), None
+
+
+_warm = []
+
+
+def used_printer(indent):
+    """a pretty printer object with a history: one walk abandoned inside two open blocks, one completed"""
+    from calmjs.parse.unparsers.es5 import pretty_printer
+    from calmjs.parse.parsers.es5 import parse
+    if not _warm:
+        _warm.append(parse('function w(a) { if (a) { b(); c(); } switch (d) { case 1: e(); } }'))
+    printer = pretty_printer(indent)
+    gen = iter(printer(_warm[0]))
+    for _ in range(22):
+        next(gen)
+    gen.close()
+    for _ in printer(_warm[0]):
+        pass
+    return printer
